@@ -440,6 +440,26 @@ fn opts(i: u64) -> GenOpts {
     o
 }
 
+/// Hand-written inputs inside the supported notation that the generator does not spell (shapes reported by independent
+/// readers of the property). A diagnostic on one of them carries the feature `hand-input:<name>`, so that a listed finding
+/// names exactly this input.
+const HAND_INPUTS: &[(&str, &str)] = &[
+    ("hand-input:integer-default-through-value-bounded-reference", "Mq1 DEFINITIONS AUTOMATIC TAGS ::= BEGIN\nZq ::= SEQUENCE { f Tq DEFAULT 5 }\nTq ::= INTEGER (0..vmax)\nvmax INTEGER ::= 9\nEND\n"),
+    ("hand-input:integer-default-through-value-bounded-reference", "Mq1 DEFINITIONS AUTOMATIC TAGS ::= BEGIN\nSq ::= SEQUENCE { f Tq DEFAULT 5 }\nTq ::= INTEGER (0..vmax)\nvmax INTEGER ::= 9\nEND\n"),
+    ("hand-input:sequence-valued-default-of-a-referenced-type", "Mq1 DEFINITIONS AUTOMATIC TAGS ::= BEGIN\nSx ::= SEQUENCE { f INTEGER DEFAULT 3, g BOOLEAN }\nRx ::= SEQUENCE { s Sx DEFAULT { g TRUE } }\nEND\n"),
+    ("hand-input:sequence-valued-default-of-a-referenced-type", "Mq1 DEFINITIONS AUTOMATIC TAGS ::= BEGIN\nSx ::= SEQUENCE { f INTEGER DEFAULT 3, g BOOLEAN, h IA5String DEFAULT \"x\" }\nTx ::= SEQUENCE { s Sx DEFAULT { g TRUE } }\nEND\n"),
+    ("hand-input:enumeral-default-through-a-type-reference", "Mq1 DEFINITIONS AUTOMATIC TAGS ::= BEGIN\nFq ::= ENUMERATED { c, d }\nGq ::= Fq\nRq ::= SEQUENCE { h Gq DEFAULT c }\nEND\n"),
+    ("hand-input:set-of-component-with-default", "Mq1 DEFINITIONS AUTOMATIC TAGS ::= BEGIN\nTq ::= SEQUENCE { a SET OF INTEGER DEFAULT {} }\nEND\n"),
+    ("hand-input:set-of-component-with-default", "Mq1 DEFINITIONS AUTOMATIC TAGS ::= BEGIN\nTq ::= SEQUENCE { a SET OF INTEGER DEFAULT { 1, 2 }, b SEQUENCE OF BOOLEAN DEFAULT {} }\nEND\n"),
+    ("hand-input:integer-union-component-with-default", "Mq1 DEFINITIONS AUTOMATIC TAGS ::= BEGIN\nSq ::= SEQUENCE { a INTEGER (2 | 3) DEFAULT 2 }\nEND\n"),
+    ("hand-input:real-component", "Mq1 DEFINITIONS AUTOMATIC TAGS ::= BEGIN\nTq5 ::= SEQUENCE { b REAL OPTIONAL }\nEND\n"),
+    ("hand-input:dummy-value-parameter-as-default", "Mq1 DEFINITIONS AUTOMATIC TAGS ::= BEGIN\nPq { INTEGER: lo } ::= SEQUENCE { v INTEGER DEFAULT lo }\nXq ::= Pq { 3 }\nEND\n"),
+    ("hand-input:default-of-a-module-qualified-reference", "Mq1 DEFINITIONS AUTOMATIC TAGS ::= BEGIN\nTq1 ::= SEQUENCE { fq3 Mq3.Tq5 DEFAULT 3 }\nEND\nMq3 DEFINITIONS AUTOMATIC TAGS ::= BEGIN\nTq5 ::= INTEGER (0..10)\nEND\n"),
+    ("hand-input:component-names-that-differ-by-case-or-hyphen", "Mq1 DEFINITIONS AUTOMATIC TAGS ::= BEGIN\nTq ::= SEQUENCE { fooBar NULL, foo-bar BOOLEAN }\nEND\n"),
+    ("hand-input:component-named-like-an-escaped-keyword", "Mq1 DEFINITIONS AUTOMATIC TAGS ::= BEGIN\nTq ::= SEQUENCE { type INTEGER, r-type BOOLEAN }\nEND\n"),
+    ("hand-input:keyword-named-collection-of-anonymous-elements", "Mq1 DEFINITIONS AUTOMATIC TAGS ::= BEGIN\nSelf ::= SEQUENCE OF INTEGER (0..5)\nUq ::= SEQUENCE { s Self }\nEND\n"),
+];
+
 struct Eligible {
     n: usize,
     /// None for the hand-templated inputs (name styles, cross-module cycles): they are not minimised
@@ -469,6 +489,10 @@ fn classes_of(errs: &[Diag]) -> Vec<(String, Vec<&'static str>)> {
 /// signature of one (class, features) pair: a listed finding is keyed on the class *and* one feature of the item the
 /// diagnostic points into; the same class on an item without that feature is a different (unlisted) violation
 fn sig_for(findings: &Findings, class: &str, features: &[&'static str]) -> String {
+    // a hand-written input is its own key: whatever rustc says about it, in however many diagnostics
+    if let Some(f) = features.iter().find(|f| f.starts_with("hand-input:")) {
+        return format!("c01|rustc|*|{f}");
+    }
     for f in features {
         let s = format!("c01|rustc|{class}|{f}");
         if findings.known.contains_key(&("C01".to_string(), s.clone())) {
@@ -553,6 +577,16 @@ pub fn run(ctx: &Ctx) -> Report {
             }
         }
     }
+    for (j, (name, text)) in HAND_INPUTS.iter().enumerate() {
+        let cfg = cfg_for(0);
+        match &comp::rasn(&[text.to_string()], &cfg).out {
+            comp::Outcome::Ok { generated, warnings } if warnings.is_empty() && syn::parse_file(generated).is_ok() => {
+                rep.count("eligible_cases[hand-inputs]", 1);
+                elig.push(Eligible { n: 3_000_000 + j, set: None, asn1: text.to_string(), cfg, text: generated.clone(), origin: format!("{name}#{j}") });
+            }
+            _ => rep.count("ineligible[hand-inputs]", 1),
+        }
+    }
     let eligible_ratio = elig.len() as f64 / want.max(1) as f64;
     rep.extra.insert("eligible_selected".into(), json!(elig.len()));
     if eligible_ratio < 0.2 {
@@ -581,6 +615,9 @@ pub fn run(ctx: &Ctx) -> Report {
                             let mut errs = errs.clone();
                             for d in errs.iter_mut() {
                                 d.features.extend(spec_features(&elig[k].asn1, d));
+                                if elig[k].n >= 3_000_000 {
+                                    d.features.insert(0, HAND_INPUTS[elig[k].n - 3_000_000].0);
+                                }
                             }
                             failing.push((k, errs));
                             false
